@@ -22,7 +22,8 @@ ASSUMPTIONS = [
     "where the statement leaves a choice the check accepts every choice: an excursion that attains its largest |value| at several "
     "indices may report any of them, and a zero-valued first sample / final run may or may not be reported; the canonical "
     "reference (first index of the largest |value|, all zero-valued reported local peaks) is compared for equality only where no "
-    "such freedom exists, and a disagreement between predicate and reference there is a harness error",
+    "such freedom exists; the predicate must accept the canonical reference on every case, otherwise the oracle is broken "
+    "(harness error, exit 2)",
     "tolerance clauses are metamorphic against the library's own zero-tolerance result, as the statement is worded; tol = f * |a "
     "sample of the series| with f in {0.3, 1, 1.5} or f * (largest of the first peaks) with f > 1; no rounding is involved in "
     "the comparison peak + tol*sign <= 0 (sign of a floating sum is exact), so there is no ambiguous band",
@@ -198,15 +199,19 @@ def _check_switched(ctx, a, arg):
     v = a.tolist()
     canon = ref.switched_peaks(v)
     msg = ref.switched_violation(v, got)
-    if msg is not None and got == canon:
-        raise HarnessError("switched-peak predicate rejects the canonical reference %r (%s) for %r" % (canon, msg, v[:40]))
-    if msg is None and got != canon:
-        tie, end_zero = ref.switched_freedom(v)
-        if not (tie or end_zero):
-            raise HarnessError("switched-peak predicate accepts %r but the canonical reference is %r for %r" % (got, canon, v[:40]))
-        ctx.cls("non-canonical-choice")
+    if got == canon:
+        if msg is not None:
+            raise HarnessError("switched-peak predicate rejects the canonical reference %r (%s) for %r" % (canon, msg, v[:40]))
+        return got
+    if ref.switched_violation(v, canon) is not None:
+        raise HarnessError("switched-peak predicate rejects the canonical reference %r for %r" % (canon, v[:40]))
     if msg is not None:
         ctx.fail("switched peaks: %s; got %s, canonical reference %s" % (msg, _sh(got), _sh(canon)))
+    tie, end_zero = ref.switched_freedom(v)
+    if not (tie or end_zero):
+        # the statement determines the answer uniquely here
+        ctx.fail("switched peaks: got %s, expected %s" % (_sh(got), _sh(canon)))
+    ctx.cls("non-canonical-choice")
     return got
 
 
